@@ -94,7 +94,7 @@ func ValidateFormat(name string, val string, f Format) error {
 	case FormatEmail:
 		_, err = mail.ParseAddress(val)
 	case FormatHostname:
-		if !hostnameRegex.MatchString(val) {
+		if !isHostname(val) {
 			err = fmt.Errorf("hostname value '%s' does not match %s",
 				val, hostnameRegex.String())
 		}
@@ -134,6 +134,37 @@ func ValidateFormat(name string, val string, f Format) error {
 		return InvalidFormatError(name, val, f, err)
 	}
 	return nil
+}
+
+// isHostname returns true if val is a host name as defined by RFC 1123: dot
+// separated labels made of letters, digits and hyphens that neither start nor
+// end with a hyphen and hold at most 63 characters, at most 253 characters in
+// total (not counting the trailing dot of an absolute name). hostnameRegex
+// describes the shape of a label but, being an unanchored alternation, cannot
+// be used to match a complete value.
+func isHostname(val string) bool {
+	if l := len(val); l > 0 && val[l-1] == '.' {
+		val = val[:l-1]
+	}
+	if len(val) == 0 || len(val) > 253 {
+		return false
+	}
+	start := 0
+	for i := 0; i <= len(val); i++ {
+		if i < len(val) && val[i] != '.' {
+			c := val[i]
+			if !(c >= 'a' && c <= 'z' || c >= 'A' && c <= 'Z' || c >= '0' && c <= '9' || c == '-') {
+				return false
+			}
+			continue
+		}
+		label := val[start:i]
+		if len(label) == 0 || len(label) > 63 || label[0] == '-' || label[len(label)-1] == '-' {
+			return false
+		}
+		start = i + 1
+	}
+	return true
 }
 
 // knownPatterns records the compiled patterns.
